@@ -206,6 +206,27 @@ def finish(ctx, level, explanation, technique, checker_cmd):
             os.remove(os.path.join(rep_dir, f))
         except OSError:
             pass
+    # Coverage is fail-closed: on the reference tree every enumerated instance is decided, so an instance the engine can no longer decide (a body
+    # rewritten with recursion, a loop, an unknown intrinsic ...) is reported instead of silently passing.  Instances listed in
+    # undecided_baseline.json (none at present) are the only exception.
+    allow = set()
+    try:
+        with open(os.path.join(VERIF, 'undecided_baseline.json')) as f:
+            allow = set(json.load(f).get(prop, []))
+    except (OSError, ValueError):
+        allow = set()
+    obl = []
+    for (rule, config, inst, verdict, detail) in ctx.obligations:
+        if verdict == UNDECIDED and vkey(prop, rule, config, inst) not in allow:
+            ctx.counts[(rule, UNDECIDED)] = ctx.counts.get((rule, UNDECIDED), 0) - 1
+            if not ctx.counts[(rule, UNDECIDED)]:
+                del ctx.counts[(rule, UNDECIDED)]
+            ctx.counts[(rule, UNVERIFIABLE)] = ctx.counts.get((rule, UNVERIFIABLE), 0) + 1
+            d = detail if isinstance(detail, str) else json.dumps(detail, default=str)
+            obl.append((rule, config, inst, UNVERIFIABLE, 'not decidable by the engine (%s); every instance of this rule is decided on the reference tree, so the property is no longer covered here' % d[:400]))
+        else:
+            obl.append((rule, config, inst, verdict, detail))
+    ctx.obligations = obl
     n_ob = len(ctx.obligations)
     by = {}
     for (rule, config, inst, verdict, detail) in ctx.obligations:
